@@ -47,7 +47,10 @@ class SimpleEventgroup:
         self.service = service
         self.log = service.log.getChild(f"evgrp-{id:04x}")
 
-        self.subscribed_endpoints: typing.Set[header.EndpointOption[typing.Any]] = set()
+        # maps each subscribed endpoint to the number of live subscriptions naming it
+        self.subscribed_endpoints: typing.Counter[
+            header.EndpointOption[typing.Any]
+        ] = collections.Counter()
 
         self.notification_task: typing.Optional[asyncio.Task[None]] = None
         if interval:
@@ -134,7 +137,7 @@ class SimpleEventgroup:
 
         Triggers a notification of the current value to be sent to the subscriber.
         """
-        self.subscribed_endpoints.add(endpoint)
+        self.subscribed_endpoints[endpoint] += 1
         self.has_clients.set()
         # send initial eventgroup notification
         asyncio.create_task(
@@ -146,7 +149,11 @@ class SimpleEventgroup:
         Called by :class:`SimpleService` when a subscription for this eventgroup
         runs out.
         """
-        self.subscribed_endpoints.remove(endpoint)
+        if endpoint not in self.subscribed_endpoints:
+            raise KeyError(endpoint)
+        self.subscribed_endpoints[endpoint] -= 1
+        if self.subscribed_endpoints[endpoint] <= 0:
+            del self.subscribed_endpoints[endpoint]
         if not self.subscribed_endpoints:
             self.has_clients.clear()
 
